@@ -33,9 +33,10 @@ CLAIMS = {
             "steps: > 600 s), full-range 64-bit products without the abstraction."),
     "C03": ("5/C03",
             "All division forms (div_rem, / % /= %= in all shapes, wrapping_/checked_ forms, div_ceil, "
-            "(checked_)next_multiple_of) for every (n, d != 0) at widths {1,7,8,16} incl. the Euclidean contract "
-            "q*d+r = n, r < d; zero divisor => panic in every panicking form / None in every checked form at widths "
-            "{0,1,64,65,128,250}; thorough adds one two-limb lattice shape (128 bits, 2x1 limbs, constructive oracle).",
+            "(checked_)next_multiple_of incl. its overflow panic) for every (n, d != 0) at 2 bits, and all but the "
+            "next_multiple_of forms at {1,7,8} bits, incl. the Euclidean contract q*d+r = n, r < d; zero divisor => "
+            "panic in every panicking form / None in every checked form at widths {0,1,64,65,128,250}; thorough adds "
+            "one two-limb lattice shape (128 bits, 2x1 limbs, constructive oracle).",
             "Weak fit, stated: FULL 63/64-bit single-limb operands, and every multi-limb shape except the one "
             "registered, did not finish (each native `/` is its own divider circuit; div_nx1 3 limbs, div_nxm 4x3 "
             "> 3000 s). Slice kernels are pinned unreachable by panicking stubs where the shape excludes them."),
@@ -69,9 +70,11 @@ CLAIMS = {
             "SSZ and borsh (BYTES little-endian bytes, lengths, round trip), SCALE fixed form (prefix + LE bytes, "
             "size_hint and max_encoded_len are upper bounds, round trip), SCALE compact (four modes, size_hint bound, "
             "also on a 264-bit type), DER (canonical INTEGER TLV, value_len) for ALL values at widths "
-            "{0,1,7,8,16,60,64,65,72,128}; rlp crate at 8/16 bits (thorough).",
-            "Not claimed: serde human-readable serialisation and postgres text/JSON encodings (format!), num-bigint, "
-            "ark-ff, primitive-types/bytemuck casts, postgres to_sql, the 55-byte RLP and 536-bit compact limits "
+            "{0,1,7,8,16,60,64,65,72,128}; serde binary form (capturing Serializer + binary visitor), primitive-types "
+            "U128/U256/H128/H256, bytemuck Pod/Zeroable, postgres to_sql->from_sql for BOOL/INT2/4/8/OID/MONEY/BYTEA/"
+            "BIT/VARBIT at 16 bits (thorough 8, 65); rlp crate at 8/16 bits (thorough).",
+            "Not claimed: serde human-readable serialisation and postgres text/JSON encodings (format!), postgres "
+            "NUMERIC (round trip undecided in 500 s), num-bigint, ark-ff, the 55-byte RLP and 536-bit compact limits "
             "(width too large for the budget)."),
     "C18": ("5/C18",
             "Uint -> f64: the result is finite, non-negative and one of the two 53-bit neighbours of the exact value, "
@@ -88,9 +91,10 @@ CLAIMS = {
             "To/FromBytes) against the inherent methods on ALL operands; multiplication-based (CheckedMul ... MulAdd) "
             "and division-based facades (all / % operator shapes, CheckedDiv/Rem, Euclid, CheckedEuclid, num-integer "
             "div_floor/mod_floor/div_rem/div_ceil/is_multiple_of) with the inherent multipliers / div_rem replaced by "
-            "tagged mixing stubs; zero-divisor None; parity, inc, dec. Widths {0,1,7,64,65,128,250}.",
+            "tagged mixing stubs; zero-divisor None; parity, inc, dec; Sum/Product by value and by reference over 0..=3 "
+            "elements. Widths {0,1,7,64,65,128,250}.",
             "Not covered: Pow/Inv/PrimInt::pow, gcd/lcm/extended_gcd forwarding, swap_bytes/from_be/to_be, Num::"
-            "from_str_radix, zeroize; Sum/Product are in C01/C02. Rotations use amounts 0..=65535."),
+            "from_str_radix, zeroize. Rotations use amounts 0..=65535."),
     "C11": ("5/C11",
             "mul_redc at N = 1 on an 11-free-bit lattice: m = {2^62-32, 2^62, 2^63-32, 2^63, 2^64-32} + 2x+1 (below, at "
             "and above both carry thresholds), a, b = small or m-1-small, inv from an independent Newton iteration: "
@@ -100,16 +104,18 @@ CLAIMS = {
             "Very narrow, stated: N >= 2, anything off the lattice (20 free bits did not finish in 900 s: three "
             "dependent 64x64 products per row and a debug assertion that needs (v*inv)*m = v*(inv*m))."),
     "C13": ("5/C13",
-            "pow/wrapping_pow/overflowing_pow at 1 bit and wrapping_pow at 3 bits for every (base, exponent) "
-            "(thorough: all five forms at {1,2,3,7,8}); log2/checked_log2 at every width in "
+            "all five pow forms at 1 bit and wrapping_pow at 3 bits for every (base, exponent) (thorough: pow/"
+            "wrapping_pow at 2 and 3 bits); log2/checked_log2 at every width in "
             "{1,2,3,4,7,8,64,65,128,250} and log10/checked_log10 below 4 bits (where the constants 2 and 10 do not fit), "
             "log2(0)/log10(0) and root(degree 0) panic.",
             "Outside (measured): log with a generic base and root for 2 <= degree < BITS (float-seeded correction "
-            "loops; even their float-free inputs cost > 400 s at one bit), approx_* functions, pow above 8 bits."),
+            "loops; even their float-free inputs cost > 400 s at one bit), approx_* functions, the flag-carrying pow "
+            "forms above one bit (CBMC out of memory) and every pow form above 3 bits."),
     "C14": ("5/C14",
             "reciprocal(d) = floor((2^128-1)/d) - 2^64 on all 256 table rows x both fills x 4 free low bits, plus "
             "d = 2^63, 2^64-1 and reciprocal_2 at 2^127, 2^128-1; thorough adds div_2x1 on a 20-free-bit lattice with a "
-            "constructive (q, r) oracle.",
+            "constructive (q, r) oracle, once with the real reciprocal and once compositionally with reciprocal() "
+            "replaced by its specification.",
             "Weak fit, stated: div_3x2, div_nx1, div_nx2, div_nxm and algorithms::div on lattice shapes did not "
             "finish within 3000 s (every div_2x1/div_3x2 call re-derives the reciprocal in a debug assertion) and are "
             "not claimed; slice lengths 1..=12 of the property are therefore not reached."),
@@ -125,7 +131,8 @@ CLAIMS = {
             "Widths {0,1,2,7,8,63,64,65,127,128,129,192,250,256}: every value x every usize shift amount x every bit "
             "position (one symbolic index) for all shl/shr method forms incl. exact lost-bit flags, arithmetic_shr, "
             "<< >> <<= >>= for 10 primitive amount types (non-negative amounts) and for Uint-typed amounts of any "
-            "magnitude; rotations for amounts 0..=65535 (any usize for widths <= 65 in the thorough tier).",
+            "magnitude; rotations for amounts 0..=65535 (any usize for widths <= 65 in the thorough tier) and for "
+            "concrete whole-limb/mixed amounts at 128/192/250/256 bits.",
             "Bounded: widths listed (quick subset {0,1,7,64,65,128,250}; all ten amount types only at 65 bits in "
             "quick); rotate amounts above 65535 only at widths <= 65 (thorough); negative signed amounts excluded as "
             "the property states."),
